@@ -19,12 +19,6 @@ import (
 	"pgregory.net/rapid"
 )
 
-func TestMain(m *testing.M) {
-	code := m.Run()
-	vfkit.Flush()
-	os.Exit(code)
-}
-
 var vfC18 = vfkit.For("C18")
 
 // vfZones returns the IANA zone names to draw from: every entry of the Go
@@ -314,6 +308,7 @@ func vfCheckContains(t interface {
 // TestVFC18Contains: in effect <=> wall-clock time of day on the local weekday
 // lies in [start, end).
 func TestVFC18Contains(t *testing.T) {
+	vfkit.Begin(t)
 	rapid.Check(t, func(t *rapid.T) {
 		zone := vfDrawZone(t)
 		loc, err := time.LoadLocation(zone)
@@ -353,6 +348,7 @@ func TestVFC18Contains(t *testing.T) {
 // local day, an empty one none; checked by walking whole local days that hold a
 // transition in steps drawn from the seed.
 func TestVFC18FullAndEmptyDay(t *testing.T) {
+	vfkit.Begin(t)
 	rapid.Check(t, func(t *rapid.T) {
 		zone := vfDrawZone(t)
 		loc, err := time.LoadLocation(zone)
@@ -470,6 +466,7 @@ func vfDecodeYAML(b []byte) (zone string, days [7]vfRange, err error) {
 
 // TestVFC18RoundTrip: schedules survive JSON and YAML round trips unchanged.
 func TestVFC18RoundTrip(t *testing.T) {
+	vfkit.Begin(t)
 	rapid.Check(t, func(t *rapid.T) {
 		zone := vfDrawZone(t)
 		var days [7]vfRange
@@ -534,6 +531,7 @@ func TestVFC18RoundTrip(t *testing.T) {
 // TestVFC18Validation: ranges that are negative, inverted, longer than 24h or
 // not whole minutes are rejected; all others are accepted.
 func TestVFC18Validation(t *testing.T) {
+	vfkit.Begin(t)
 	rapid.Check(t, func(t *rapid.T) {
 		zone := vfDrawZone(t)
 		badZone := rapid.IntRange(0, 9).Draw(t, "bad_zone") == 0
@@ -613,6 +611,7 @@ func TestVFC18Validation(t *testing.T) {
 
 // TestVFC18Regress replays frozen failing cases without rapid.
 func TestVFC18Regress(t *testing.T) {
+	vfkit.Begin(t)
 	type tc struct {
 		zone string
 		day  time.Weekday
